@@ -39,7 +39,13 @@ type c12Val struct {
 var c12Vals = []c12Val{
 	{"", 2, 0, ""}, {"0", 2, 0, ""}, {"1", 2, 1, ""}, {"-1.5", 2, -1.5, ""}, {"a", 3, 0, "a"}, {"B", 3, 0, "b"}, {"true", 4, 0, "true"}, {"false", 1, 0, "false"},
 	{"null", 0, 0, "null"}, {`{"x":1}`, 5, 0, `{"x":1}`}, {"+Inf", 2, math.Inf(1), ""}, {"-Inf", 2, math.Inf(-1), ""}, {"10", 2, 10, ""}, {"abc", 3, 0, "abc"},
-	{"ABd", 3, 0, "abd"}, {"ab", 3, 0, "ab"}, {"Abz", 3, 0, "abz"}, {"aBC", 3, 0, "abc"},
+	{"ABd", 3, 0, "abd"}, {"ab", 3, 0, "ab"}, {"Abz", 3, 0, "abz"}, {"aBC", 3, 0, "abc"}, {"7.50", 2, 7.5, ""},
+}
+
+// other spellings of numbers that are stored (or of the 0 a missing field reads
+// as): only ever used on the query side
+var c12Spellings = []c12Val{
+	{"10.0", 2, 10, ""}, {"1e1", 2, 10, ""}, {"1.0", 2, 1, ""}, {"-1.50", 2, -1.5, ""}, {"0.0", 2, 0, ""}, {"-0", 2, 0, ""}, {"7.5", 2, 7.5, ""}, {"75e-1", 2, 7.5, ""},
 }
 
 func c12Less(a, b c12Val) bool {
@@ -53,7 +59,7 @@ func c12Less(a, b c12Val) bool {
 }
 
 func checkC12Srv(job *Job, res *Result) {
-	res.Rule = "SEQ over inputs: all well-formed patterns of length <= 3 over 9 bytes x 8 pattern consumers; WHERE f min max for all pairs of 13 bounds x open/closed, WHERE f op v for 6 operators x 13 values, WHEREIN subsets of size 1-2, on 18 objects of every value kind; the virtual fields z and properties.<path> on points with / without z and GeoJSON features (incl. strings that differ only in case or after a common case-insensitive prefix); COUNT vs IDS and DESC vs ASC for every filter, with and without LIMIT, on a collection mixing strings and geometries in three states (built; ids changed kind and values repeated; after deletions); every SEARCH value stored twice; distinct = distinct (consumer / filter form, expected result)"
+	res.Rule = "SEQ over inputs: all well-formed patterns of length <= 3 over 9 bytes x 8 pattern consumers; WHERE f min max for all pairs of 13 bounds x open/closed, WHERE f op v for 6 operators x 13 values, WHEREIN subsets of size 1-2, on 19 objects of every value kind; 8 alternative spellings of stored numbers (10.0, 1e1, -0, 75e-1 ...) on the query side of every operator, of a closed range and of WHEREIN; the virtual fields z and properties.<path> on points with / without z and GeoJSON features (incl. strings that differ only in case or after a common case-insensitive prefix); COUNT vs IDS and DESC vs ASC for every filter, with and without LIMIT and CURSOR (inside, at and beyond the size of the collection), on a collection mixing strings and geometries in three states (built; ids changed kind and values repeated; after deletions); every SEARCH value stored twice; distinct = distinct (consumer / filter form, expected result)"
 	res.Assumptions = append(res.Assumptions, "malformed patterns (glob.Match reports an error) are skipped", "NaN is excluded from the comparison matrix (its order is not documented); strings compare case-insensitively; a missing field reads as 0")
 	pa := []byte{'a', 'b', '*', '?', '[', ']', '\\', '^', '-'}
 	var pats []string
@@ -275,6 +281,19 @@ func checkC12Srv(job *Job, res *Result) {
 				}))
 			}
 		}
+		for _, b := range c12Spellings {
+			b := b
+			eq := func(v c12Val) bool { return !c12Less(v, b) && !c12Less(b, v) }
+			for op, pred := range map[string]func(v c12Val) bool{
+				"<": func(v c12Val) bool { return c12Less(v, b) }, "<=": func(v c12Val) bool { return !c12Less(b, v) },
+				">": func(v c12Val) bool { return c12Less(b, v) }, ">=": func(v c12Val) bool { return !c12Less(v, b) },
+				"==": eq, "!=": func(v c12Val) bool { return !eq(v) }} {
+				chk("spelling:op:"+op, []string{"WHERE", "f", op, b.Set}, expect(pred))
+			}
+			chk("spelling:range", []string{"WHERE", "f", b.Set, b.Set}, expect(eq))
+			chk("spelling:wherein:1", []string{"WHEREIN", "f", "1", b.Set}, expect(eq))
+			chk("spelling:wherein:2", []string{"WHEREIN", "f", "2", "abc", b.Set}, expect(func(v c12Val) bool { return eq(v) || v.Str == "abc" }))
+		}
 		// ---- virtual fields: z (third coordinate of a point, 0 otherwise) and properties.<path> of a GeoJSON feature
 		c.Do("SET", "zk", "p1", "POINT", "1", "1", "5")
 		c.Do("SET", "zk", "p2", "POINT", "1", "2")
@@ -355,40 +374,45 @@ func checkC12Srv(job *Job, res *Result) {
 				}
 				for _, f := range filters {
 					for _, lim := range []string{"", "1", "2", "3", "100"} {
-						caseNo++
-						if caseNo%job.NShards != job.Shard {
-							continue
-						}
-						base := []string{cmd, "mix"}
-						if lim != "" {
-							base = append(base, "LIMIT", lim)
-						}
-						base = append(base, f...)
-						ids := listOf(c.Do(append(append(append([]string{}, base...), "IDS"), area...)...))
-						cv := c.Do(append(append(append([]string{}, base...), "COUNT"), area...)...)
-						res.Evaluations++
-						res.DistinctS(fmt.Sprint("count", phase, cmd, len(f), lim, len(ids)))
-						if cv.String() != ":"+strconv.Itoa(len(ids)) {
-							ftag := "nofilter"
-							if len(f) > 0 {
-								ftag = strings.ToLower(f[0])
+						for _, cur := range []string{"", "2", "5", "9", "10", "1000"} {
+							caseNo++
+							if caseNo%job.NShards != job.Shard {
+								continue
 							}
-							ltag := "nolimit"
+							base := []string{cmd, "mix"}
+							if cur != "" {
+								base = append(base, "CURSOR", cur)
+							}
 							if lim != "" {
-								ltag = "limit"
+								base = append(base, "LIMIT", lim)
 							}
-							res.Violate(fmt.Sprintf("C12/count-vs-ids:%s:%s:%s", strings.ToLower(cmd), ftag, ltag),
-								fmt.Sprintf("%v COUNT -> %s but IDS returns %d items %v", base, cv, len(ids), ids), map[string]any{"query": base})
-						}
-						if (cmd == "SCAN" || cmd == "SEARCH") && lim == "" {
-							asc := listOf(c.Do(append(append([]string{}, base...), "ASC", "IDS")...))
-							desc := listOf(c.Do(append(append([]string{}, base...), "DESC", "IDS")...))
-							r := append([]string(nil), asc...)
-							for i, j := 0, len(r)-1; i < j; i, j = i+1, j-1 {
-								r[i], r[j] = r[j], r[i]
+							base = append(base, f...)
+							ids := listOf(c.Do(append(append(append([]string{}, base...), "IDS"), area...)...))
+							cv := c.Do(append(append(append([]string{}, base...), "COUNT"), area...)...)
+							res.Evaluations++
+							res.DistinctS(fmt.Sprint("count", phase, cmd, len(f), lim, cur != "", len(ids)))
+							if cv.String() != ":"+strconv.Itoa(len(ids)) {
+								ftag := "nofilter"
+								if len(f) > 0 {
+									ftag = strings.ToLower(f[0])
+								}
+								ltag := "nolimit"
+								if lim != "" {
+									ltag = "limit"
+								}
+								res.Violate(fmt.Sprintf("C12/count-vs-ids:%s:%s:%s", strings.ToLower(cmd), ftag, ltag),
+									fmt.Sprintf("%v COUNT -> %s but IDS returns %d items %v", base, cv, len(ids), ids), map[string]any{"query": base})
 							}
-							if strings.Join(r, " ") != strings.Join(desc, " ") {
-								res.Violate("C12/desc-not-reverse-of-asc:"+strings.ToLower(cmd), fmt.Sprintf("%v ASC -> %v, DESC -> %v", base, asc, desc), map[string]any{"query": base})
+							if (cmd == "SCAN" || cmd == "SEARCH") && lim == "" && cur == "" {
+								asc := listOf(c.Do(append(append([]string{}, base...), "ASC", "IDS")...))
+								desc := listOf(c.Do(append(append([]string{}, base...), "DESC", "IDS")...))
+								r := append([]string(nil), asc...)
+								for i, j := 0, len(r)-1; i < j; i, j = i+1, j-1 {
+									r[i], r[j] = r[j], r[i]
+								}
+								if strings.Join(r, " ") != strings.Join(desc, " ") {
+									res.Violate("C12/desc-not-reverse-of-asc:"+strings.ToLower(cmd), fmt.Sprintf("%v ASC -> %v, DESC -> %v", base, asc, desc), map[string]any{"query": base})
+								}
 							}
 						}
 					}
